@@ -2256,10 +2256,14 @@ class C11(HistorySpec):
 
 class C13(HistorySpec):
     pid = "C13"
+    check_written_form = True
     oracle_fn = staticmethod(hist.oracle_c13)
+    def model_modules_paths(self):
+        return ["ShowUpdate", "WrittenForm"]
+
     coq_files = ["Properties/C13.v"]
     theorems = ["C13_check_update_leaves_settled_store", "C13_locked_check_writes_the_store_it_read",
-                "C13_written_lists_are_canonical", "C13_check_keeps_exemption_meaning", "C13_check_on_a_written_store_writes_it_back", "C13_second_check_writes_the_same_store"]
+                "C13_written_lists_are_canonical", "C13_check_keeps_exemption_meaning", "C13_check_on_a_written_store_writes_it_back", "C13_second_check_writes_the_same_store", "C13_written_form_test_is_sound"]
     level_text = ("Theorems: the check's own update leaves every local audit, imported audit, wildcard audit and publisher record of "
                   "a settled store (nothing fresh) in place whatever paths are chosen; a --locked check writes back the store it read; "
                   "written criteria lists are canonical (re-writing reproduces them); the check never narrows an exemption. "
